@@ -217,7 +217,7 @@ fn helper_op(rng: &mut Rng, fresh: bool) -> Op {
 /// A family of related operations, shaped so that state leaking from one call to another would show.
 fn family(rng: &mut Rng, corpus: &Corpus, deep_levels: (usize, usize), out: &mut Vec<Op>) -> &'static str {
     let fresh = rng.chance(1, 4);
-    match rng.weighted(&[14, 14, 10, 8, 8, 8, 6, 6, 5]) {
+    match rng.weighted(&[14, 14, 10, 8, 8, 8, 6, 6, 5, 5, 6]) {
         0 => {
             // same rule x different data (corpus rule)
             let (r, d) = rng.pick(&corpus.cases).clone();
@@ -308,6 +308,58 @@ fn family(rng: &mut Rng, corpus: &Corpus, deep_levels: (usize, usize), out: &mut
             }
             "helpers"
         }
+        9 => {
+            // deeply nested *data* walked, stringified and compared by shallow rules
+            let levels = rng.range(deep_levels.0, deep_levels.1.min(122));
+            let (d, path) = gen::deep_data(rng, levels);
+            let dt = t(&d);
+            for _ in 0..rng.range(1, 3) {
+                let r = match rng.below(11) {
+                    0 => json!({"var": path.clone()}),
+                    1 => json!({"cat": [{"var": ""}, "x"]}),
+                    2 => json!({"==": [{"var": ""}, 1]}),
+                    3 => json!({"<": [{"var": ""}, {"var": ""}]}),
+                    4 => json!({"merge": [{"var": ""}, {"var": ""}]}),
+                    5 => json!({"in": [1, {"var": ""}]}),
+                    6 => json!({"!!": [{"var": ""}]}),
+                    7 => json!({"log": {"var": ""}}),
+                    8 => json!({"+": [{"var": ""}]}),
+                    9 => json!({"max": [{"var": ""}, 1]}),
+                    _ => json!({"missing": [path.clone(), "nope"]}),
+                };
+                out.push(Op::apply(&t(&r), &dt, rng.chance(1, 4)));
+            }
+            if rng.chance(1, 3) {
+                out.push(Op::helper("to_string", vec![dt.clone()], false));
+            }
+            "deep-data"
+        }
+        10 => {
+            // data that looks like rules, fetched as values, defaults and quantified collections
+            let inner = match rng.below(5) {
+                0 => json!({"var": *rng.pick(gen::KEYS)}),
+                1 => json!({"+": [{"var": "a"}, 1]}),
+                2 => json!({"log": "from-data"}),
+                3 => json!({"cat": [{"var": "b"}, {"var": "a.b"}]}),
+                _ => json!({"if": [{"var": "x"}, {"var": "a"}, {"var": "b"}]}),
+            };
+            let d = json!({"k": inner.clone(), "a": gen::atom(rng), "b": gen::atom(rng), "x": gen::atom(rng), "list": [inner.clone(), gen::atom(rng), inner], "c": {"k": gen::data(rng, 1)}});
+            let dt = t(&d);
+            for _ in 0..rng.range(1, 3) {
+                let r = match rng.below(8) {
+                    0 => json!({"var": ["nope", {"var": "k"}]}),
+                    1 => json!({"var": ["nope.deeper", {"var": "list.0"}]}),
+                    2 => json!({"all": [{"var": "list"}, {"!!": [{"var": ""}]}]}),
+                    3 => json!({"some": [{"var": "list"}, {"var": "k"}]}),
+                    4 => json!({"none": [{"var": "list"}, {"==": [{"var": ""}, 1]}]}),
+                    5 => json!({"map": [{"var": "list"}, {"var": ["zz", {"var": ""}]}]}),
+                    6 => json!({"cat": [{"var": "k"}, {"var": ["q", {"var": "k"}]}]}),
+                    _ => json!({"var": [*rng.pick(gen::KEYS), {"var": *rng.pick(&["k", "list.2", "c.k"])}]}),
+                };
+                out.push(Op::apply(&t(&r), &dt, rng.chance(1, 4)));
+            }
+            "operation-shaped-data"
+        }
         _ => {
             // structurally equal values at distinct addresses: same texts, one shared, one fresh
             let (r, d) = rng.pick(&corpus.cases).clone();
@@ -330,7 +382,7 @@ impl GenParams {
     pub fn for_tier(tier: &str) -> GenParams {
         match tier {
             "thorough" => GenParams { deep_levels: (20, 120), max_threads: 4, long_history_pct: 6 },
-            _ => GenParams { deep_levels: (20, 60), max_threads: 4, long_history_pct: 4 },
+            _ => GenParams { deep_levels: (20, 100), max_threads: 4, long_history_pct: 4 },
         }
     }
 }
